@@ -20,14 +20,24 @@ theorem todos_sorted_unique (clamp : Bool) (fuel : Nat) (ops : List Op) :
   ⟨(inv_run clamp fuel inv_init ops).sorted, (inv_run clamp fuel inv_init ops).nodup⟩
 
 /-- "never before its due time": every invocation happened at a clock reading `now ≥ when` -/
-theorem never_early (clamp : Bool) (fuel : Nat) (ops : List Op) (id : Nat) (w now : Int) (rest : List Entry)
-    (h : Event.ran id w now rest ∈ (run clamp fuel {} ops).log) : w ≤ now :=
+theorem never_early (clamp : Bool) (fuel : Nat) (ops : List Op) (id : Nat) (w now : Int) (rest : List Entry) (seq : Nat)
+    (h : Event.ran id w now rest seq ∈ (run clamp fuel {} ops).log) : w ≤ now :=
   ((inv_run clamp fuel inv_init ops).logOk _ h).1
 
 /-- "tasks run in order of due time": the task invoked was due no later than every other pending one -/
-theorem due_order (clamp : Bool) (fuel : Nat) (ops : List Op) (id : Nat) (w now : Int) (rest : List Entry)
-    (h : Event.ran id w now rest ∈ (run clamp fuel {} ops).log) : ∀ e ∈ rest, w ≤ e.when :=
+theorem due_order (clamp : Bool) (fuel : Nat) (ops : List Op) (id : Nat) (w now : Int) (rest : List Entry) (seq : Nat)
+    (h : Event.ran id w now rest seq ∈ (run clamp fuel {} ops).log) : ∀ e ∈ rest, w ≤ e.when :=
   ((inv_run clamp fuel inv_init ops).logOk _ h).2.1
+
+/-- "equal due times in scheduling order": `seq` numbers the schedulings (construction with a due time,
+Shift) in the order in which they took effect; the task invoked was scheduled before every other pending
+task with the same due time.  Together with `due_order`: each invocation picks the minimum of the
+pending set by (due time, scheduling order) - the reference scheduler the check evaluates on the
+implementation's trace. -/
+theorem ties_by_scheduling_order (clamp : Bool) (fuel : Nat) (ops : List Op) (id : Nat) (w now : Int)
+    (rest : List Entry) (seq : Nat) (h : Event.ran id w now rest seq ∈ (run clamp fuel {} ops).log) :
+    ∀ e ∈ rest, e.when = w → seq < e.seq :=
+  ((inv_run clamp fuel inv_init ops).logOk _ h).2.2.2
 
 /-- "equal due times in scheduling order": a newly scheduled entry goes behind all
 pending entries with the same due time (and the front of the list is what runs next) -/
@@ -39,8 +49,8 @@ theorem ties_in_scheduling_order (clamp : Bool) (fuel : Nat) (ops : List Op) (e 
 /-- "exactly once per scheduling" (at most once): the invocation removed the ToDo's only entry,
 so without a new Shift it cannot be invoked again -/
 theorem run_pops_only_entry (clamp : Bool) (fuel : Nat) (ops : List Op) (id : Nat) (w now : Int) (rest : List Entry)
-    (h : Event.ran id w now rest ∈ (run clamp fuel {} ops).log) : id ∉ ids rest :=
-  ((inv_run clamp fuel inv_init ops).logOk _ h).2.2
+    (seq : Nat) (h : Event.ran id w now rest seq ∈ (run clamp fuel {} ops).log) : id ∉ ids rest :=
+  ((inv_run clamp fuel inv_init ops).logOk _ h).2.2.1
 
 /-- "Cancel before the start prevents the run": after Cancel the ToDo has no entry -/
 theorem cancel_prevents (clamp : Bool) (fuel : Nat) (ops : List Op) (id : Nat) :
@@ -74,12 +84,12 @@ already executed ToDo (again)": afterwards the ToDo has exactly one entry, at th
 theorem shift_replaces (clamp : Bool) (fuel : Nat) (ops : List Op) (id : Nat) (w : Int) :
     let s := run clamp fuel {} ops
     id ∈ s.live →
-      (applyOp s (.shift id w)).todos.filter (fun e => e.id = id) = [⟨id, w⟩] := by
+      (applyOp s (.shift id w)).todos.filter (fun e => e.id = id) = [⟨id, w, s.nextSeq⟩] := by
   intro s hl
   have h := inv_run clamp fuel inv_init ops
   simp only [applyOp, if_pos hl, move]
   have hno : id ∉ ids (remove s.todos id) := not_mem_ids_remove id h.nodup
-  obtain ⟨pre, post, h1, h2, _, _⟩ := insert_split (remove s.todos id) ⟨id, w⟩
+  obtain ⟨pre, post, h1, h2, _, _⟩ := insert_split (remove s.todos id) ⟨id, w, s.nextSeq⟩
   rw [h1]
   rw [h2] at hno
   simp only [ids, List.map_append, List.mem_append, not_or, List.mem_map, not_exists, not_and] at hno
@@ -122,8 +132,8 @@ theorem log_stepTodos_suffix (fuel : Nat) (d : Deadline) (s : St) :
         · exact ⟨[_], by rw [log_foldl_applyOp]; rfl⟩
         · split
           · obtain ⟨pre, hpre⟩ := ih (d.tick _) ((s.body front.id).foldl applyOp
-              { s with todos := rest, log := .ran front.id front.when d.now rest :: s.log })
-            refine ⟨pre ++ [.ran front.id front.when d.now rest], ?_⟩
+              { s with todos := rest, log := .ran front.id front.when d.now rest front.seq :: s.log })
+            refine ⟨pre ++ [.ran front.id front.when d.now rest front.seq], ?_⟩
             rw [hpre, log_foldl_applyOp]; simp
           · exact ⟨[_], by rw [log_foldl_applyOp]; rfl⟩
 
@@ -139,7 +149,7 @@ theorem log_pollSockets (clamp : Bool) (t : Int) (s : St) :
 
 theorem stepTodos_runs_front (fuel : Nat) (d : Deadline) (s : St) (front : Entry) (rest : List Entry)
     (ht : s.todos = front :: rest) (hdue : front.when ≤ d.now) :
-    Event.ran front.id front.when d.now rest ∈ (stepTodos (fuel + 1) d s).2.log := by
+    Event.ran front.id front.when d.now rest front.seq ∈ (stepTodos (fuel + 1) d s).2.log := by
   unfold stepTodos
   rw [ht]
   have hn : ¬ (front.when - d.now > 0) := by omega
@@ -148,9 +158,9 @@ theorem stepTodos_runs_front (fuel : Nat) (d : Deadline) (s : St) (front : Entry
   · rw [log_foldl_applyOp]; simp
   · split
     · obtain ⟨pre, hpre⟩ := log_stepTodos_suffix fuel (d.tick ((s.body front.id).foldl applyOp
-          { s with todos := rest, log := .ran front.id front.when d.now rest :: s.log }).now)
+          { s with todos := rest, log := .ran front.id front.when d.now rest front.seq :: s.log }).now)
         ((s.body front.id).foldl applyOp
-          { s with todos := rest, log := .ran front.id front.when d.now rest :: s.log })
+          { s with todos := rest, log := .ran front.id front.when d.now rest front.seq :: s.log })
       rw [hpre, log_foldl_applyOp]; simp
     · rw [log_foldl_applyOp]; simp
 
@@ -159,7 +169,7 @@ a `Step` - with any timeout - that starts at or after the due time of the earlie
 invokes that task. -/
 theorem prompt (clamp : Bool) (fuel : Nat) (t : Int) (s : St) (front : Entry) (rest : List Entry)
     (ht : s.todos = front :: rest) (hdue : front.when ≤ s.now) :
-    Event.ran front.id front.when s.now rest ∈ (step clamp (fuel + 1) t s).log := by
+    Event.ran front.id front.when s.now rest front.seq ∈ (step clamp (fuel + 1) t s).log := by
   have hmake : (Deadline.make t s.now).now = s.now := by
     unfold Deadline.make; split
     · rfl
@@ -178,6 +188,6 @@ theorem prompt (clamp : Bool) (fuel : Nat) (t : Int) (s : St) (front : Entry) (r
 
 example :
     (run true 10 {} [.new 1 1000 [], .new 2 1000 [.shift 2 5000], .clock 1000, .step 0, .step 0]).todos
-      = [⟨2, 5000⟩] := by decide
+      = [⟨2, 5000, 2⟩] := by decide
 
 end SockModel.ToDos
